@@ -128,12 +128,27 @@ def check(mod, prop, tier, seed, t0):
             print("DIFF", json.dumps(cases[i], default=str)[:400], "=>", str(d)[:600])
         for i, f in fails[:40]:
             print("FAIL", f["key"], str(f["msg"])[:400])
+    # generated twins: kernels regenerated from /repo's current source, compared inside Lean with the hand model
+    # on an exhaustive small scope (module attribute TWIN_CHECKS: list of driver requests)
+    twin_results, twin_diffs = [], []
+    if model_ok and getattr(mod, "TWIN_CHECKS", None):
+        try:
+            for req, r in zip(mod.TWIN_CHECKS, core.run_driver(list(mod.TWIN_CHECKS))):
+                twin_results.append({"request": req, "response": _trim(r, 400)})
+                if "bad" in r:
+                    continue                      # twin unavailable (syntax outside the translator's subset): not a violation
+                if r.get("disagreements"):
+                    twin_diffs.append(f"twin {req['op']}: regenerated kernel disagrees with the hand model: {r['disagreements'][:2]}")
+                if r.get("memory_errors"):
+                    twin_diffs.append(f"twin {req['op']} {req.get('fn')}: index/unbound errors under checked Python semantics: {r.get('memory_error_samples')}")
+        except core.ToolFailure as e:
+            model_ok, model_problem = False, str(e)
     if herr:
         raise core.ToolFailure(f"harness error in impl worker: {herr[0][1]}\n{herr[0][2]}")
     new_fails = [(i, f) for i, f in fails if f["key"] not in known]
     known_hits = Counter(f["key"] for i, f in fails if f["key"] in known)
     searched_extra = 0
-    if (not proof_ok or not model_ok or diffs) and not new_fails and hasattr(mod, "search"):
+    if (not proof_ok or not model_ok or diffs or twin_diffs) and not new_fails and hasattr(mod, "search"):
         # proof or correspondence no longer checks: widen the failing-input search on the real code
         extra = list(mod.search(rng, tier))
         searched_extra = len(extra)
@@ -177,8 +192,8 @@ def check(mod, prop, tier, seed, t0):
             lines.append(f"VIOLATION property={prop} replay={path}")
             violations += 1
         rc = 1
-    elif not proof_ok or not model_ok or diffs:
-        what = []
+    elif not proof_ok or not model_ok or diffs or twin_diffs:
+        what = [{"generated_twin": t} for t in twin_diffs]
         if not proof_ok:
             what.append({"proof": aud["problems"] or "no obligations", "theorems": aud["theorems"]})
         if not model_ok:
@@ -202,7 +217,8 @@ def check(mod, prop, tier, seed, t0):
         "evaluations": len(cases), "distinct_nontrivial": len(nontriv),
         "rule": getattr(mod, "RULE", ""),
         "traces_validated_against_impl": sum(1 for pc in per_case if pc),
-        "correspondence_disagreements": len(diffs),
+        "correspondence_disagreements": len(diffs) + len(twin_diffs),
+        "generated_twins": {"translator": core.TWIN_REPORT, "checks": twin_results},
         "oracle_failures_new": len(new_fails), "known_finding_hits": dict(known_hits),
         "input_distribution": dict(stat), "modes": [m for m, _ in getattr(mod, "MODES", [("normal", {})])],
         "samples": samples,
@@ -213,7 +229,7 @@ def check(mod, prop, tier, seed, t0):
     for l in lines:
         print(l)
     print(f"{prop} {tier}: theorems {aud['discharged']}/{aud['obligations']}, cases {len(cases)} "
-          f"(non-trivial {len(nontriv)}), correspondence diffs {len(diffs)}, new oracle failures {len(new_fails)}, "
+          f"(non-trivial {len(nontriv)}), correspondence diffs {len(diffs) + len(twin_diffs)}, new oracle failures {len(new_fails)}, "
           f"known-finding hits {sum(known_hits.values())}, {time.time()-t0:.0f}s")
     return rc
 
